@@ -595,7 +595,7 @@ def run(ctx):
             elif m_: m_[min(j, len(m_) - 1)] = rng.choice(BWORDS)
         if m_:
             bstrings.append(m_)
-    XEND = ("a", ")", "CloseBracketToken", "PlusPlusToken", "MinusMinusToken")
+    XEND = ("a", "CloseBracketToken")
     bstrings = [t for t in bstrings
                 # as in the two models' own stages: a label is `L`, a type name stands between parentheses, no `&&` prefix (label address)
                 if not any(t[j] == "L" and not ((j + 1 < len(t) and t[j + 1] == ":" and not (j and t[j - 1] in ("goto", "case"))) or (j and t[j - 1] == "goto" and j + 1 < len(t) and t[j + 1] == ";")) for j in range(len(t)))
